@@ -1604,6 +1604,17 @@ class FunctionNode(AstNode):
 ######################################################################
 
 
+def int_literal(text):
+    """Convert an optionally signed integer literal to an int.
+    Like C++, a leading zero introduces an octal literal: 010 is 8.
+    Raise ValueError if text is not such a literal.
+    """
+    digits = text[1:] if text[:1] in ("+", "-") else text
+    if len(digits) > 1 and digits[0] == "0":
+        return int(text, 8)
+    return int(text)
+
+
 class EnumNode(AstNode):
     """
         - decl: |
@@ -1692,7 +1703,7 @@ class EnumNode(AstNode):
             # evaluate value
             if member.value is not None:
                 try:
-                    cvalue = int(todict.print_node(member.value))
+                    cvalue = int_literal(todict.print_node(member.value))
                     fvalue = cvalue
                     value_is_int = True
                 except ValueError:
